@@ -32,6 +32,7 @@ func ruleC05(w *World, r *Report) {
 	const P = "C05"
 	r.Explanation = "R05.1 after NewPFCPSession succeeded every exit of the establishment handler either commits the session (store.PutSession) or has passed RemoveSession and the releases of what was acquired; R05.2 at every session-end site (call sites of RemoveSession, derived) every path through the site also removes the session's datapath entries and releases its UE IP and its UP-chosen TEIDs; teardown loops end every stored session on every iteration; " +
 		"R05.3 UP4 sendDelete reaches the release of counter cells, both meter cells of each meter kind, tunnel-peer references, application references and UE-address mappings on its success path; R05.4 the session store hands out rule slices that do not share backing arrays with the stored value (a rejected modification cannot edit the stored rules), and RemoveSession pairs the gauge decrement with the store delete under the local SEID."
+	r.Explanation += " R05.6 the session copy handed to the deletion paths copies each rule list in full (no fixed-length target), and Remove{PDR,FAR,QER} return the removed rule by value, not a pointer into the list they have shifted."
 	r.NotDecided = "'N attach/detach cycles never exhaust a pool' as arithmetic (a consequence of pairing); releases inside third-party containers"
 	cg := w.CG()
 	remove := w.Fn(P, "pfcpiface.(*PFCPConn).RemoveSession")
@@ -212,6 +213,7 @@ func ruleC05(w *World, r *Report) {
 	// the delete addresses exactly the entries the add installed (same expansion of the same ranges)
 	portRuleConsumers(w, r, "R05.2", w.Fn(P, "pfcpiface.CreatePortRangeCartesianProduct"))
 	ruleC05Gauge(w, r)
+	ruleC05Complete(w, r)
 	markBothLists(w, r, "R05.4")
 }
 
@@ -486,4 +488,105 @@ func ruleC05Gauge(w *World, r *Report) {
 		}
 	})
 	r.check(incs == 1 && decs == 1, "R05.5", w.FuncName(save), "one Inc and one Dec", w.Pos(save.Pos()), "1/1", fmt.Sprintf("%d Inc / %d Dec", incs, decs))
+}
+
+// ruleC05Complete (R05.6): the teardown reclaims the rules it is shown. (a) The copy of a session that the
+// store hands to the deletion paths holds every rule of the session: each list is copied in full
+// (append to an empty slice, a slice of len(source) filled by copy, slices.Clone) — a fixed-length target
+// silently drops the rules beyond it, and they stay installed. (b) Remove{PDR,FAR,QER} return the removed
+// rule itself, not a pointer into the list they have just shifted (that pointer shows the next rule, and
+// the datapath delete removes the wrong entry).
+func ruleC05Complete(w *World, r *Report) {
+	const P = "C05"
+	clone := w.Fn(P, "pfcpiface.(PacketForwardingRules).clone")
+	cn := w.FuncName(clone)
+	n := 0
+	isLenOfField := func(v ssa.Value, field string) bool {
+		c, ok := v.(*ssa.Call)
+		return ok && calleeName(c) == "builtin.len" && strings.HasSuffix(symOf(c.Call.Args[0]).String(), "."+field)
+	}
+	allInstrs(clone, func(i ssa.Instruction) {
+		st, ok := i.(*ssa.Store)
+		if !ok {
+			return
+		}
+		fa, ok := st.Addr.(*ssa.FieldAddr)
+		if !ok || fieldVar(fa) == nil {
+			return
+		}
+		field := fieldVar(fa).Name()
+		if field != "pdrs" && field != "fars" && field != "qers" {
+			return
+		}
+		n++
+		full, how := false, ""
+		switch x := st.Val.(type) {
+		case *ssa.Call:
+			switch {
+			case calleeName(x) == "builtin.append" && len(x.Call.Args) == 2:
+				base := x.Call.Args[0]
+				empty := isNilConst(base)
+				if ms, ok := base.(*ssa.MakeSlice); ok {
+					if k, isK := constInt(ms.Len); isK && k == 0 {
+						empty = true
+					}
+				}
+				if sl, ok := base.(*ssa.Slice); ok {
+					if k, isK := constInt(sl.High); isK && k == 0 {
+						if al, ok := sl.X.(*ssa.Alloc); ok && al.Heap {
+							empty = true
+						}
+					}
+				}
+				if empty && strings.HasSuffix(symOf(x.Call.Args[1]).String(), "."+field) {
+					full, how = true, "append(empty, p."+field+"...)"
+				}
+			case strings.HasSuffix(calleeName(x), "slices.Clone") && strings.HasSuffix(symOf(x.Call.Args[0]).String(), "."+field):
+				full, how = true, "slices.Clone(p."+field+")"
+			}
+		case *ssa.MakeSlice:
+			if isLenOfField(x.Len, field) {
+				// filled by copy(dst, p.field)
+				allInstrs(clone, func(j ssa.Instruction) {
+					if c, ok := j.(*ssa.Call); ok && calleeName(c) == "builtin.copy" && strings.HasSuffix(symOf(c.Call.Args[1]).String(), "."+field) {
+						full, how = true, "make(len(p."+field+")) + copy"
+					}
+				})
+			}
+		}
+		r.check(full, "R05.6", cn, "the session copy holds every rule of "+field, w.Pos(st.Pos()), how, "the copy of "+field+" is not a full copy of the stored list ("+symOf(st.Val).String()+"): rules beyond the target's length are dropped from what the deletion paths see, their datapath entries and identifiers are never reclaimed")
+	})
+	r.floor("R05.6 rule lists copied by clone", n, 3)
+	// (b)
+	for _, name := range []string{"pfcpiface.(*PFCPSession).RemovePDR", "pfcpiface.(*PFCPSession).RemoveFAR", "pfcpiface.(*PFCPSession).RemoveQER"} {
+		f := w.Fn(P, name)
+		m := 0
+		for _, ret := range returnsOf(f) {
+			v := res(ret, 0)
+			if isNilConst(v) {
+				continue
+			}
+			m++
+			intoList := false
+			var walk func(x ssa.Value, d int)
+			walk = func(x ssa.Value, d int) {
+				if d > 6 {
+					return
+				}
+				switch y := x.(type) {
+				case *ssa.IndexAddr:
+					intoList = true
+				case *ssa.FieldAddr:
+					walk(y.X, d+1)
+				case *ssa.Phi:
+					for _, e := range y.Edges {
+						walk(e, d+1)
+					}
+				}
+			}
+			walk(v, 0)
+			r.check(!intoList, "R05.6", name, "the removed rule is returned by value (a copy)", w.Pos(ret.Pos()), "pointer to a local copy", "the function returns a pointer into the list it has just shifted: after the removal it shows the following rule (or a stale tail element), and the caller deletes that one from the datapath while the removed rule's entry stays")
+		}
+		r.floor("R05.6 returns of "+name, m, 1)
+	}
 }
